@@ -98,24 +98,28 @@ Section Ieee.
     binary_normalize prec emax (if s then Zneg m else Zpos m) e s.
 End Ieee.
 
+(* every bit pattern a conversion produces fits its width (checked here so that no theorem has to
+   reason about rounding; the check never fails on the real conversions) *)
+Definition fits (w : Z) (r : Z) : option Z := if (0 <=? r) && (r <? 2 ^ w) then Some r else None.
+
 (* float(z) as a binary64 bit pattern; OverflowError -> None *)
 Definition f64_of_Z (z : Z) : option Z :=
   match binary_normalize 53 1024 z 0 false with
   | S754_infinity _ => None
-  | f => Some (encode 52 11 f)
+  | f => fits 64 (encode 52 11 f)
   end.
 
 (* struct.pack('!f', x) for a double given by its bits: (float)x, OverflowError when a finite
    double becomes infinite; NaN: sign kept, quiet bit set, top 22 payload bits kept (cvtsd2ss) *)
 Definition f32_of_f64 (x : Z) : option Z :=
   match decode 52 11 x with
-  | DZero s => Some (sbit 23 8 s)
-  | DInf s => Some (sbit 23 8 s + 255 * 2 ^ 23)
-  | DNan s p => Some (sbit 23 8 s + 255 * 2 ^ 23 + Z.lor (2 ^ 22) (p / 2 ^ 29))
+  | DZero s => fits 32 (sbit 23 8 s)
+  | DInf s => fits 32 (sbit 23 8 s + 255 * 2 ^ 23)
+  | DNan s p => fits 32 (sbit 23 8 s + 255 * 2 ^ 23 + Z.lor (2 ^ 22) (p / 2 ^ 29))
   | DFin s m e =>
       match round_to 23 8 s m e with
       | S754_infinity _ => None
-      | f => Some (encode 23 8 f)
+      | f => fits 32 (encode 23 8 f)
       end
   end.
 
@@ -142,7 +146,7 @@ Definition in_dom (d : dom) (z : Z) : bool :=
 (* the value a real-number setter packs: float bits, or float(int) *)
 Definition as_f64 (v : value) : option Z :=
   match v with
-  | VReal r => if (0 <=? r) && (r <? 2 ^ 64) then Some r else None
+  | VReal r => fits 64 r
   | VInt z => f64_of_Z z
   | VBool b => f64_of_Z (b2z b)
   | _ => None
@@ -291,10 +295,15 @@ Definition run_sets (t : list field) (e : axis_env) (ops : list (string * value)
 Definition bind {A B} (x : option A) (f : A -> option B) : option B :=
   match x with Some a => f a | None => None end.
 
+(* a sequence of assignments all of which must be accepted (an exception aborts the method) *)
+Definition seq_sets (t : list field) (e : axis_env) (ops : list (string * value)) (b : block) : option block :=
+  fold_left (fun acc op => bind acc (setn t e (fst op) (snd op))) ops (Some b).
+
+Definition flags (l : list (string * bool)) : list (string * value) :=
+  map (fun nv => (fst nv, VBool (snd nv))) l.
+
 Definition set_flags (t : list field) (e : axis_env) (l : list (string * bool)) (b : block) : option block :=
-  fold_left (fun acc nv => bind acc (setn t e (fst nv) (VBool (snd nv)))) l (Some b).
-
-
+  seq_sets t e (flags l) b.
 
 Definition update_status_master (t : list field) (e : axis_env) (b : block) : option block :=
   bind (get_int t "p_Ist"%string b) (fun p0 =>
